@@ -106,7 +106,14 @@ class CSSParser:
         return style
 
     def parseString(
-        self, cssText, encoding=None, href=None, media=None, title=None, validate=None
+        self,
+        cssText,
+        encoding=None,
+        href=None,
+        media=None,
+        title=None,
+        validate=None,
+        _detectedEncoding=None,
     ):
         """Parse `cssText` as :class:`~cssutils.css.CSSStyleSheet`.
         Errors may be raised (e.g. UnicodeDecodeError).
@@ -151,9 +158,12 @@ class CSSParser:
             )
             sheet._setFetcher(self.__fetcher)
             # tokenizing this ways closes open constructs and adds EOF
+            # (an encoding merely detected for this sheet, e.g. by parseUrl, is
+            # not an override for the sheets it imports)
             sheet._setCssTextWithEncodingOverride(
                 self.__tokenizer.tokenize(cssText, fullsheet=True),
                 encodingOverride=encoding,
+                encoding=_detectedEncoding,
             )
         finally:
             self.__parseSetting(False)
@@ -215,14 +225,19 @@ class CSSParser:
         encoding, enctype, text = cssutils.util._readUrl(
             href, fetcher=self.__fetcher, overrideEncoding=encoding
         )
+        detected = None
         if enctype == 5:
             # do not use if defaulting to UTF-8
             encoding = None
+        elif enctype != 0:
+            # found via HTTP, BOM or @charset: applies to this sheet only
+            encoding, detected = None, encoding
 
         if text is not None:
             return self.parseString(
                 text,
                 encoding=encoding,
+                _detectedEncoding=detected,
                 href=href,
                 media=media,
                 title=title,
